@@ -27,7 +27,7 @@ STATE_MEASURE = 'distinct (exported path set, query kind, queried path) at proce
 PROBES = ['sibling-prefix-both-exported', 'introspect-intermediate-path', 'introspect-fails',
           'gmo-with-descendants', 'gmo-root', 'query-in-flight-across-export',
           'query-in-flight-across-unexport', 'call-to-unexported', 'unexport-then-reexport', 'same-instance-reexported', 'property-assigned-after-export',
-          'export-over-exported-path', 'export-call-raised', 'unexport-of-unexported-path', 'failed-export-fate-observed', 'failed-export-over-exported-path', 'exported-object-is-falsy',
+          'export-over-exported-path', 'export-call-raised', 'unexport-of-unexported-path', 'failed-export-fate-observed', 'failed-export-over-exported-path', 'exported-object-is-falsy', 'object-unexports-itself-from-a-call',
           'gmo-sibling-prefix-case']
 COMPONENTS = {
     'real': ['txdbus.objects.DBusObjectHandler (exportObject, unexportObject, getManagedObjects, '
@@ -72,6 +72,13 @@ def scenario(ctx):
     sched = Scheduler(ctx)
 
     def hook(obj, mspec, args, caller):
+        if mspec.name == 'Close':
+            # the usual Close / Destroy method: the object unexports itself from inside the call
+            if obj.getObjectPath() in uncertain:
+                return 0        # (the fate of this path is open already: leave it alone)
+            sim.probe('object-unexports-itself-from-a-call')
+            cl.unexportObject(obj.getObjectPath())
+            return 1
         ref, txv = gen.tx_body(ds, mspec.sig_out)
         n = len(txv)
         return None if n == 0 else (txv[0] if n == 1 else tuple(txv))
@@ -86,6 +93,9 @@ def scenario(ctx):
             # every class has a probe method
             cs.ifaces[0].methods.append(('Probe', '', 'i'))
             cs.methods[(cs.ifaces[0].name, 'Probe')] = objgen.MSpec(cs.ifaces[0].name, 'Probe',
+                                                                    '', 'i', 'deco', False)
+            cs.ifaces[0].methods.append(('Close', '', 'i'))
+            cs.methods[(cs.ifaces[0].name, 'Close')] = objgen.MSpec(cs.ifaces[0].name, 'Close',
                                                                     '', 'i', 'deco', False)
             txi = objgen.build_tx_ifaces(cs)
             extra_attrs = None
@@ -280,15 +290,19 @@ def scenario(ctx):
                             '%s of %s lists interfaces %r, object has %r' % (member, path, names, want))
 
     def op_query():
-        kind = ds.weighted([3, 3, 2])
+        kind = ds.weighted([3, 3, 2, 0.5])
         p = QUERY_PATHS[ds.choose(len(QUERY_PATHS))]
-        q = {'kind': ('introspect', 'gmo', 'call')[kind], 'path': p, 'epoch': epoch[0]}
+        if kind == 3 and E:
+            p = sorted(E)[ds.choose(len(E))]
+        q = {'kind': ('introspect', 'gmo', 'call', 'close')[kind], 'path': p, 'epoch': epoch[0]}
         if kind == 0:
             m = daemon.call(p, 'Introspect', 'org.freedesktop.DBus.Introspectable', sender=':1.60',
                             dest=rig.bus_name)
         elif kind == 1:
             m = daemon.call(p, 'GetManagedObjects', 'org.freedesktop.DBus.ObjectManager',
                             sender=':1.60', dest=rig.bus_name)
+        elif kind == 3:
+            m = daemon.call(p, 'Close', None, sender=':1.60', dest=rig.bus_name)
         else:
             # ordinary call: the probe method of whatever class is there (interface omitted)
             m = daemon.call(p, 'Probe', None, sender=':1.60', dest=rig.bus_name)
@@ -318,7 +332,7 @@ def scenario(ctx):
         if E is None:
             E = E_now
         p = q['path']
-        if q['kind'] == 'call':
+        if q['kind'] in ('call', 'close'):
             return ('ok',) if p in E else ('unknown-object',)
         if q['kind'] == 'introspect':
             ch = children(E, p)
@@ -355,6 +369,10 @@ def scenario(ctx):
                         if a:
                             Ea[up] = u['rec']
                         q['alts'].append((a, expected(q, Ea), frozenset(Ea), Ea[up]['cs'] if up in Ea else None))
+                if q['kind'] == 'close' and q['path'] in E and q['path'] not in uncertain:
+                    # processed now: from here on the path is not exported
+                    retired[q['path']] = E.pop(q['path'])
+                    epoch[0] += 1
                 if q['epoch'] != epoch[0]:
                     sim.probe('query-in-flight-across-' +
                               ('export' if len(E) else 'unexport'))
